@@ -152,10 +152,53 @@ def triple(rng, m, ig):
 # ------------------------------------------------------------------------------------------------
 # script
 # ------------------------------------------------------------------------------------------------
+class _TdType:
+    def __init__(self, name):
+        self.name = name
+
+    def yang(self):
+        return "type %s;" % self.name
+
+
+def choose_typedefs(rng, m, p=0.5):
+    """some leaves / leaf-lists get their default value from a typedef instead of an own default statement (the compiled
+    node then has a default without LYS_SET_DFLT); the Module object - and so the schema the model sees - is unchanged"""
+    m._td = [n for n in m.all_nodes()
+             if ((n.kind == "leaf" and n.default is not None) or (n.kind == "leaf-list" and len(n.defaults) == 1)) and rng.random() < p]
+
+
+def mod_yang(m):
+    td = getattr(m, "_td", [])
+    if not td:
+        return m.yang()
+    saved, defs = [], ""
+    for i, n in enumerate(td):
+        d = n.default if n.kind == "leaf" else n.defaults[0]
+        defs += '  typedef td%d { %s default "%s"; }\n' % (i, n.type.yang(), yanggen.yang_dq(d))
+        saved.append((n, n.type, d))
+        n.type = _TdType("td%d" % i)
+        if n.kind == "leaf":
+            n.default = None
+        else:
+            n.defaults = []
+    try:
+        s = m.yang()
+        first = m.nodes[0].yang("  ") if m.nodes else "}\n"
+    finally:
+        for n, t, d in saved:
+            n.type = t
+            if n.kind == "leaf":
+                n.default = d
+            else:
+                n.defaults = [d]
+    i = s.index(first)
+    return s[:i] + defs + s[i:]
+
+
 def script_head(m, a, b, c):
     s = Script()
     s.ctx()                                    # 0
-    s.mod(m.yang())                            # 1
+    s.mod(mod_yang(m))                         # 1
     s.parse(0, "x", yanggen.to_xml(a))         # 2
     s.parse(1, "x", yanggen.to_xml(b))         # 3
     s.parse(9, "x", yanggen.to_xml(c))         # 4
@@ -280,6 +323,8 @@ class DiffTree(Comp):
         pre = []
         for i in range(self.n(tier, 1500, 20000, scale)):
             m, ig = tree_case(rng, userord=False, state=False, meta_prob=0.0)
+            if i % 3 == 0:
+                choose_typedefs(rng, m)
             ig.max_inst = 6 if i % 4 == 0 else 4
             ig.edp = 0.45
             a, b, c = triple(rng, m, ig)
@@ -485,7 +530,7 @@ def _kinds():
     return comps_c14x
 
 
-def kinds_norm(dump, meta=True, opaque=True, anyrep=True, dflt=True):
+def kinds_norm(dump, meta=True, opaque=True, anyrep=True, dflt=True, opqns=True):
     """xdump without what apply cannot be asked to reproduce (LYD_NEW / when flags, private pointers) and optionally
     without metadata, opaque subtrees, or with anydata values reduced to 'has a value' (representation-insensitive)"""
     out = []
@@ -504,6 +549,9 @@ def kinds_norm(dump, meta=True, opaque=True, anyrep=True, dflt=True):
             if not opaque:
                 skip = d
                 continue
+            if not opqns:
+                f[1] = "?"        # (namespace in XML, module name in JSON)
+                f[6:] = [x if i % 2 else "@" for i, x in enumerate(f[6:])]
             out.append(":".join(f[:4] + f[6:]))
             continue
         f[4] = "d" if dflt and "d" in f[4] else ""
@@ -549,7 +597,8 @@ def kn_is_any(S, n):
 
 def kn_carry(S, trees):
     """what the diff functions do with what they do not look at: the result has the data nodes of the LAST tree of the
-    list, but a node keeps its metadata and its opaque children from the first tree (in application order) that has it"""
+    list; a node that exists in the first tree (the one the diff is applied to) keeps its metadata, a created node has
+    none; the opaque children are those of the first tree (in application order) that has the node"""
     ixs = [kn_index(S, t) for t in trees]
 
     def src(path):
@@ -565,16 +614,29 @@ def kn_carry(S, trees):
             q = path + (kn_ident(S, n),)
             o = src(q)
             m = n.copy(deep=False)
-            m.meta = list(o.meta)
-            m.children = rec(n.children, q) + [c.copy() for c in o.children if c.opq]
+            m.meta = list(ixs[0][q].meta) if q in ixs[0] else []     # (diff nodes are duplicated without metadata)
+            m.children = rec(n.children, q) + [c.copy() if q in ixs[0] else kn_noattr(c.copy()) for c in o.children if c.opq]
+            if len(ixs) == 3 and q in ixs[0] and q not in ixs[1]:
+                # merged delete + create: the opaque children of the deleted subtree keep their delete operation, those
+                # of the created one are created
+                m.children = [c for c in m.children if not c.opq] + [kn_noattr(c.copy()) for c in n.children if c.opq]
+            if S.get(m.key(), {}).get("np"):
+                # a non-presence container is default iff all its children are (an opaque child is not)
+                m.flags = m.flags.replace("d", "") + ("d" if all((not c.opq) and "d" in c.flags for c in m.children) else "")
             out.append(m)
         return out
     return rec(trees[-1], ()) + [c.copy() for c in trees[0] if c.opq]
 
 
+def kn_noattr(n):
+    n.meta = []
+    for c in n.children:
+        kn_noattr(c)
+    return n
+
+
 def kn_render(forest):
-    K = _kinds()
-    return kinds_norm(K.render(forest))
+    return _kinds().render(forest)
 
 
 class DiffKinds:
@@ -600,6 +662,8 @@ class DiffKinds:
         g = yanggen.SchemaGen(rng, adversarial=rng.random() < 0.3, state=False, userord=False)
         m = g.module()
         K.inject_any(rng, m, m.nodes, True, None, [0], 0.9)
+        if rng.random() < 0.3:
+            choose_typedefs(rng, m)
         return m
 
     def tree(self, rng, m, ig, base=None, pm=0.0):
@@ -634,7 +698,7 @@ class DiffKinds:
     def gen(self, rng, tier, scale=1.0):
         K = _kinds()
         rng = private_rng(rng, self.name)
-        n = max(1, int((6000 if tier == "thorough" else 400) * scale))
+        n = max(1, int((3000 if tier == "thorough" else 400) * scale))
         pre = []
         for i in range(n):
             m = self.module(rng)
@@ -646,18 +710,23 @@ class DiffKinds:
             c = self.tree(rng, m, ig, b, pm) if rng.random() < 0.8 else [x.clone() for x in a]
             s = Script()
             s.ctx()
-            s.mod(m.yang())
+            s.mod(mod_yang(m))
             for t, f in ((0, a), (1, b), (9, c), (14, a[:2]), (15, c[-2:])):
-                s.add("parse", "c0", "t%d" % t, "x", 0x020000, 0x2, hexs(K.to_xml(f)))
+                # (t14, t15: data-tree values for anydata nodes, parts of A and C that need not be valid on their own)
+                s.add("parse", "c0", "t%d" % t, "x", 0x020000 if t < 14 else 0x030000, 0x2 if t < 14 else 0, hexs(K.to_xml(f)))
             s.add("xdump", "t0"); s.add("xdump", "t1"); s.add("xdump", "t9")
             pre.append((m, s))
         outs = K.stage1(["c14x\t" + "\t".join(p[1].cmds) for p in pre])
         L = []
+        mid = []
         for (m, s0), out in zip(pre, outs):
             r = results(out)
             if len(r) < 10 or r[1] != "0" or any(rc(x) != 0 for x in r[2:7]):
                 continue
             S = K.schema_desc(m)
+            for sn in m.all_nodes():
+                if sn.kind == "container" and not sn.presence:
+                    S["%s:%s" % (m.name, sn.name)]["np"] = True
             s = Script()
             s.cmds = list(s0.cmds[:7])
             w = K.word(rng)
@@ -669,23 +738,36 @@ class DiffKinds:
                 if use_opq and rng.random() < 0.7:
                     ed = K.plan_edits(rng, K.parse_xdump(d), S, m.ns, p_any=0.0, p_opq=0.7)
                     K.emit_edits(s, ed, 0, t, 14)
+            k = s.add("xdump", "t0"); s.add("xdump", "t1"); s.add("xdump", "t9")
+            mid.append((S, s, k))
+        outs = K.stage1(["c14x\t" + "\t".join(p[1].cmds) for p in mid])
+        for (S, s, k), out in zip(mid, outs):
+            r = results(out)
+            if len(r) < k + 3 or out.startswith("CRASH") or out == "TIMEOUT":
+                continue
+            abc = tuple(r[k:k + 3])
+            s.cmds = s.cmds[:-3]
             ix = {}
             ix["A"] = s.add("xdump", "t0"); ix["B"] = s.add("xdump", "t1"); ix["C"] = s.add("xdump", "t9")
             ix["daa_rc"] = s.add("diff", "t0", "t0", DIFF_DEFAULTS, "t4"); ix["daa"] = s.add("xdump", "t4")
             ix["d_rc"] = s.add("diff", "t0", "t1", DIFF_DEFAULTS, "t2")
             s.add("dup", "t0", "t3", DUPF); ix["ap_rc"] = s.add("apply", "t3", "t2"); ix["ap"] = s.add("xdump", "t3")
             fmt = "xjb"[len(L) % 3]
-            s.add("dup", "t0", "t16", DUPF)
-            ix["rt_rc"] = s.add("rt", "t2", "t5", fmt, 1, 0x010000, 0, "c0")
-            ix["rap_rc"] = s.add("apply", "t16", "t5"); ix["rap"] = s.add("xdump", "t16")
-            ix["rev_rc"] = s.add("rev", "t2", "t7"); s.add("dup", "t1", "t8", DUPF)
-            ix["vap_rc"] = s.add("apply", "t8", "t7"); ix["vap"] = s.add("xdump", "t8")
-            ix["d2_rc"] = s.add("diff", "t1", "t9", DIFF_DEFAULTS, "t10"); s.add("dup", "t2", "t11", DUPF)
-            ix["mg_rc"] = s.add("dmerge", "t11", "t10", 0); s.add("dup", "t0", "t12", DUPF)
-            ix["map_rc"] = s.add("apply", "t12", "t11"); ix["map"] = s.add("xdump", "t12")
+            if fmt == "b" and re.search(r":aN[sxj]:", abc[0] + abc[1]):
+                fmt = "x"         # (the LYB printer crashes on an anyxml string value that is NULL: not a diff matter)
+            if self.part == "C06":
+                s.add("dup", "t0", "t16", DUPF)
+                ix["rt_rc"] = s.add("rt", "t2", "t5", fmt, 0x01 if fmt == "b" else 0x25, 0x050000, 0, "c0")   # (text: WD_ALL)
+                ix["rap_rc"] = s.add("apply", "t16", "t5"); ix["rap"] = s.add("xdump", "t16")
+            else:
+                ix["rev_rc"] = s.add("rev", "t2", "t7"); s.add("dup", "t1", "t8", DUPF)
+                ix["vap_rc"] = s.add("apply", "t8", "t7"); ix["vap"] = s.add("xdump", "t8")
+                ix["d2_rc"] = s.add("diff", "t1", "t9", DIFF_DEFAULTS, "t10"); s.add("dup", "t2", "t11", DUPF)
+                ix["mg_rc"] = s.add("dmerge", "t11", "t10", 0); s.add("dup", "t0", "t12", DUPF)
+                ix["map_rc"] = s.add("apply", "t12", "t11"); ix["map"] = s.add("xdump", "t12")
             ix["A2"] = s.add("xdump", "t0"); ix["B2"] = s.add("xdump", "t1")
             line = "c14x\t" + "\t".join(s.cmds)
-            self.info[line] = (ix, S, fmt)
+            self.info[line] = (ix, S, fmt, abc)
             L.append(line)
         return L
 
@@ -695,9 +777,20 @@ class DiffKinds:
         inf = self.info.get(line)
         if inf is None:
             return None
-        ix, S, fmt = inf
+        ix, S, fmt, abc = inf
         if out.startswith("CRASH(") or out == "TIMEOUT":
-            return self.crash(line, out, ix, S)
+            if self.part == "C13":
+                A, B, C = (K.parse_xdump(x) for x in abc)
+                t = self.merge_known(S, A, B, C)
+                # (signal numbers of the plain build; a sanitizer build reports the same defects with another status)
+                cands = [x for x in ("merge-any-replace-delete", "merge-opaque") if x in t]
+                if len(cands) == 2:
+                    cands = cands[1:] if out.startswith("CRASH(-11)") else cands[:1]
+                if cands == ["merge-any-replace-delete"]:
+                    return (cands[0], "lyd_diff_merge_all: assertion failure (anydata replaced, then deleted)")
+                if cands == ["merge-opaque"]:
+                    return (cands[0], "lyd_diff_merge_all: crash on an opaque node of a created and then deleted subtree")
+            return (None, "crash: " + out)
         r = results(out)
         g = {k: r[v] for k, v in ix.items()}
         a, b, c = g["A"], g["B"], g["C"]
@@ -712,48 +805,277 @@ class DiffKinds:
             j = self.compare("apply(diff(A,B),A)", g["ap_rc"], g["ap"], b, kn_render(kn_carry(S, [A, B])))
             if j:
                 return j
-            if g["rt_rc"].startswith("P6") and fmt == "b":
-                return None        # the LYB printer refuses anydata values that are not data trees (not a diff matter)
+            if rc(g["rt_rc"]) != 0 and any(kn_is_any(S, n) for n, _, _, _ in K.flat(A) + K.flat(B)):
+                return None        # printing / parsing anydata values of every representation in every format is C14 matter
             if rc(g["rt_rc"]) != 0:
                 return (None, "printing / parsing the diff (%s) failed: %s" % (fmt, g["rt_rc"]))
-            return self.compare("apply(parse(print(diff(A,B))),A)", g["rap_rc"], g["rap"], b, kn_render(kn_carry(S, [A, B])),
-                                rt=fmt)
+            j = self.compare("apply(parse(print(diff(A,B))),A)", g["rap_rc"], g["rap"], b, kn_render(kn_carry(S, [A, B])),
+                             rt=fmt)
+            if j and j[0] is None and fmt == "j" and self.leaflist_ops(S, A, B):
+                return ("json-leaflist-meta-order", "the diff printed as JSON parses back with the operations of leaf-list "
+                        "instances on the wrong instances: " + j[1][:300])
+            return j
         if g["d_rc"] != "0" or not g["ap_rc"].startswith("0"):
             return None                   # a C06 matter
-        if kinds_norm(g["ap"]) not in (kinds_norm(b), kn_render(kn_carry(S, [A, B]))):
+        if kinds_norm(g["ap"]) not in (kinds_norm(b), kinds_norm(kn_render(kn_carry(S, [A, B])))):
             return None
-        if g["rev_rc"] != "0":
-            return (None, "lyd_diff_reverse_all failed: " + g["rev_rc"])
-        j = self.compare("apply(reverse(diff(A,B)),B)", g["vap_rc"], g["vap"], a, kn_render(kn_carry(S, [B, A])))
-        if j:
-            return j
-        if g["d2_rc"] != "0":
-            return None
-        if g["mg_rc"] != "0":
-            return (None, "lyd_diff_merge_all failed: " + g["mg_rc"])
-        return self.compare("apply(merge(diff(A,B),diff(B,C)),A)", g["map_rc"], g["map"], c, kn_render(kn_carry(S, [A, B, C])))
+        jr = self.judge_reverse(S, g, A, B, a)
+        jm = self.judge_merge(S, g, A, B, C, c) if g["d2_rc"] == "0" else None
+        for j in (jr, jm):
+            if j and j[0] is None:
+                return j                  # (an unexplained difference goes before a known one)
+        return jr or jm
 
-    def crash(self, line, out, ix, S):
-        return (None, "crash: " + out)
+    def leaflist_ops(self, S, A, B):
+        """some leaf-list has two or more instances with an operation in diff(A,B)"""
+        ia, ib = kn_index(S, A), kn_index(S, B)
+        cnt = {}
+        for x, y in ((ia, ib), (ib, ia)):
+            for p, n in x.items():
+                if p and S.get(n.key(), {}).get("k") == "leaf-list" and (p not in y or ("d" in n.flags) != ("d" in y[p].flags)):
+                    k = (p[:-1], n.key())
+                    cnt[k] = cnt.get(k, 0) + 1
+        return any(v > 1 for v in cnt.values())
+
+    def merge_known(self, S, A, B, C):
+        """the known merge findings a triple can run into"""
+        K = _kinds()
+        ia, ib, ic = kn_index(S, A), kn_index(S, B), kn_index(S, C)
+        t = {}
+
+        def has_opq(n):
+            return any(c.opq or has_opq(c) for c in n.children)
+        for p, n in ia.items():
+            if not p:
+                continue
+            if kn_is_any(S, n):
+                if p in ib and p not in ic and n.val != ib[p].val:
+                    t["merge-any-replace-delete"] = p
+                if p not in ib and p in ic and n.val != ic[p].val:
+                    t.setdefault("merge-any-delete-create", []).append(p)
+            elif p not in ib and p in ic and has_opq(n) and has_opq(ic[p]):
+                t["merge-opaque"] = p
+        for p, n in ib.items():
+            if p and p not in ia and p not in ic and has_opq(n):
+                t["merge-opaque"] = p
+        return t
+
+    def judge_merge(self, S, g, A, B, C, c):
+        K = _kinds()
+        t = self.merge_known(S, A, B, C)
+        if g["mg_rc"] != "0":
+            if g["mg_rc"].startswith("6") and "merge-opaque" in t:
+                return ("merge-opaque", "lyd_diff_merge_all fails with an internal error on an opaque node of a deleted and then "
+                        "created subtree")
+            return (None, "lyd_diff_merge_all failed: " + g["mg_rc"])
+        if not g["map_rc"].startswith("0"):
+            return (None, "apply(merge(diff(A,B),diff(B,C)),A) failed: " + g["map_rc"])
+        if kinds_norm(g["map"]) == kinds_norm(c):
+            return None
+        E = kn_carry(S, [A, B, C])
+        if kinds_norm(g["map"]) == kinds_norm(K.render(E)):
+            m = kinds_norm(c, meta=False) != kinds_norm(K.render(E), meta=False)
+            return ("diff-ignores-opaque-c13" if m else "diff-ignores-metadata-c13",
+                    "apply(merge(diff(A,B),diff(B,C)),A): metadata / opaque nodes of nodes present on both sides are not carried")
+        ia, ie = kn_index(S, A), kn_index(S, E)
+        for p in t.get("merge-any-delete-create", []):
+            if p in ie:
+                ie[p].val = ia[p].val
+        if t.get("merge-any-delete-create") and kinds_norm(g["map"]) == kinds_norm(K.render(E)):
+            return ("merge-any-delete-create", "apply(merge(diff(A,B),diff(B,C)),A): an anydata deleted and created again with "
+                    "another value keeps the old value (the merged operation is none)")
+        return (None, "apply(merge(diff(A,B),diff(B,C)),A) differs from the expected tree:\n%s\nand from what the known "
+                "limitations give:\n%s" % (kn_delta(kinds_norm(g["map"]), kinds_norm(c)), kn_delta(kinds_norm(g["map"]), kinds_norm(K.render(E)))))
+
+    def judge_reverse(self, S, g, A, B, a):
+        """apply(reverse(diff(A,B)),B) = A; a replaced anydata value comes back as a plain string (its text, or the XML
+        print of its data tree): known, tagged, the content is still checked"""
+        K = _kinds()
+        ia, ib = kn_index(S, A), kn_index(S, B)
+        repl = [p for p, n in ia.items() if p and kn_is_any(S, n) and p in ib and n.val != ib[p].val]
+        noval = [p for p in repl if ia[p].val.startswith("aN")]
+        def text(v):
+            if v.startswith("aN"):
+                return ""
+            return None if v[1] not in "sxj" else v[2:].replace("-", "")
+        same = [p for p in repl if p not in noval and text(ia[p].val) is not None and text(ia[p].val) == text(ib[p].val)]
+        if g["rev_rc"] != "0":
+            if g["rev_rc"].startswith("3~") and noval:
+                return ("any-empty-orig-value", "lyd_diff_reverse_all fails: the replace of an anydata without a value has no orig-value")
+            if g["rev_rc"].startswith("11") and same:
+                return ("reverse-any-same-text", "lyd_diff_reverse_all fails with LY_ENOT: anydata replaced by another representation "
+                        "of the same text")
+            return (None, "lyd_diff_reverse_all failed: " + g["rev_rc"])
+        if not g["vap_rc"].startswith("0"):
+            return (None, "apply(reverse(diff(A,B)),B) failed: " + g["vap_rc"])
+        if kinds_norm(g["vap"]) == kinds_norm(a):
+            return None
+        G = K.parse_xdump(g["vap"])
+        ig = kn_index(S, G)
+        E = kn_carry(S, [B, A])
+        ie = kn_index(S, E)
+        strs = 0
+        for p in repl:
+            if p not in ig or p not in ie:
+                continue
+            v = ia[p].val
+            if v.startswith("aN"):
+                ie[p].val = "as-"
+                strs += 1
+            elif v.startswith("at"):
+                if ig[p].val.startswith("as"):
+                    ig[p].val = ie[p].val = "as?"
+                    strs += 1
+            elif v[1] in "xj":
+                ie[p].val = "as" + v[2:]
+                strs += 1
+        got, exp = kinds_norm(K.render(G)), kinds_norm(K.render(E))
+        if got == exp:
+            if strs:
+                return ("reverse-any-string", "apply(reverse(diff(A,B)),B): a replaced anydata value comes back as a plain string")
+            m = kinds_norm(a, meta=False) != kinds_norm(K.render(E), meta=False)
+            return ("diff-ignores-opaque-c13" if m else "diff-ignores-metadata-c13",
+                    "apply(reverse(diff(A,B)),B): metadata / opaque nodes of nodes present on both sides are not restored")
+        return (None, "apply(reverse(diff(A,B)),B) differs from the expected tree:\n%s\nand from what the known limitations give:\n%s"
+                % (kn_delta(got, kinds_norm(a)), kn_delta(got, exp)))
 
     def compare(self, what, arc, got, exp, carried, rt=None):
         if not arc.startswith("0"):
             return (None, "%s failed: %s" % (what, arc))
         kw = {}
         if rt:
-            kw = {"anyrep": False, "dflt": rt == "b"}
+            kw = {"anyrep": False, "dflt": rt == "b", "opqns": rt != "j"}
         g = kinds_norm(got, **kw)
         if g == kinds_norm(exp, **kw):
             return None
-        if rt:
-            carried = kinds_norm(carried, **kw)
-        if g == carried:
+        if g == kinds_norm(carried, **kw):
             m = kinds_norm(exp, meta=False, **kw) != kinds_norm(carried, meta=False, **kw)
             return ("diff-ignores-opaque" if m else "diff-ignores-metadata",
                     "%s: metadata / opaque nodes of nodes present on both sides are those of the first tree" % what)
-        return (None, "%s differs from the expected tree:\n%s" % (what, kn_delta(g, kinds_norm(exp, **kw))))
+        return (None, "%s differs from the expected tree:\n%s\nand from what the known limitations give:\n%s"
+                % (what, kn_delta(g, kinds_norm(exp, **kw)), kn_delta(g, kinds_norm(carried, **kw))))
 
 
 def kn_delta(got, exp):
     import difflib
     return "\n".join(list(difflib.unified_diff(got.split(";"), exp.split(";"), "got", "expected", lineterm="", n=1))[:40])
+
+
+# ------------------------------------------------------------------------------------------------
+# merge under every combination of the diff and merge options
+# ------------------------------------------------------------------------------------------------
+def strip_default_nodes(dump):
+    """lyx dump without the nodes that carry the default flag (with their subtrees): what is compared when the diffs
+    were made without LYD_DIFF_DEFAULTS"""
+    out, skip = [], None
+    for seg in dump.split(";"):
+        if not seg or seg == "empty":
+            continue
+        p = seg.split(":")
+        d = int(p[0])
+        if skip is not None and d > skip:
+            continue
+        skip = None
+        if "d" in p[4]:
+            skip = d
+            continue
+        out.append(seg)
+    return ";".join(out)
+
+
+class DiffMergeOpts:
+    """C13 on the implementation for every combination of LYD_DIFF_DEFAULTS (both diffs) and LYD_DIFF_MERGE_DEFAULTS:
+    apply(merge(diff(A,B),diff(B,C)),A) = C by dump equality; the combinations without LYD_DIFF_DEFAULTS are judged on
+    the triples without default nodes (one case in three is generated from a schema without defaults). Triples of the correspondence component (leaves with own and with typedef defaults, case switches, created
+    subtrees, returns to the implicit default)."""
+    driver = "lyx"
+    kinds = None
+    quick_sanitize = False
+    name = "difftree-mergeopts-C13"
+    COMBOS = [(DIFF_DEFAULTS, 0), (DIFF_DEFAULTS, MERGE_DEFAULTS), (0, 0), (0, MERGE_DEFAULTS)]
+
+    def __init__(self):
+        self.info = {}
+
+    def gen(self, rng, tier, scale=1.0):
+        rng = private_rng(rng, self.name)
+        n = max(1, int((6000 if tier == "thorough" else 500) * scale))
+        L = []
+        for i in range(n):
+            m, ig = tree_case(rng, userord=False, state=False, meta_prob=0.0)
+            if i % 2 == 0:
+                choose_typedefs(rng, m)
+            ig.max_inst = 6 if i % 4 == 0 else 4
+            ig.edp = 0.45
+            a, b, c = triple(rng, m, ig)
+            s = script_head(m, a, b, c)
+            ix = {}
+            for do, mo in self.COMBOS:
+                ix["d1", do, mo] = s.add("diff", "t0", "t1", do, "t2")
+                ix["d2", do, mo] = s.add("diff", "t1", "t9", do, "t10")
+                ix["mg", do, mo] = s.add("dmerge", "t2", "t10", mo)
+                s.add("dup", "t0", "t12", DUPF)
+                ix["ap", do, mo] = s.add("apply", "t12", "t2")
+                ix["res", do, mo] = s.dump(12)
+            ix["A"] = s.dump(0); ix["B"] = s.dump(1); ix["C"] = s.dump(9)
+            line = s.line()
+            dflt = {}
+            for sn in m.all_nodes():
+                if sn.kind == "leaf" and sn.default is not None:
+                    dflt[sn.name] = sn.default
+            self.info[line] = (ix, dflt)
+            L.append(line)
+        return L
+
+    def judge(self, line, out):
+        inf = self.info.get(line)
+        if inf is None:
+            return None
+        ix, dflt = inf
+        if out.startswith("CRASH(") or out == "TIMEOUT":
+            return (None, "crash: " + out)
+        r = results(out)
+        if len(r) <= ix["C"] or r[1] != "0" or any(rc(r[k]) != 0 for k in (2, 3, 4)):
+            return None
+        c = r[ix["C"]]
+        worst = None
+        # diffs made WITHOUT LYD_DIFF_DEFAULTS: B is the data diff(A,B) was applied on (the documented precondition of the
+        # merge) only when no default nodes are around - apply leaves the default nodes of A in place; judged on such triples
+        nodflt = all(strip_default_nodes(r[ix[k]]).rstrip(";") == r[ix[k]].replace("empty", "").rstrip(";") for k in "ABC")
+        for do, mo in self.COMBOS:
+            what = "diff options %d, merge options %d" % (do, mo)
+            if not do and nodflt is False:
+                continue
+            if rc(r[ix["d1", do, mo]]) != 0 or rc(r[ix["d2", do, mo]]) != 0:
+                return (None, "lyd_diff_siblings failed (%s)" % what)
+            if rc(r[ix["mg", do, mo]]) != 0:
+                return (None, "lyd_diff_merge_all failed (%s): %s" % (what, r[ix["mg", do, mo]]))
+            if rc(r[ix["ap", do, mo]]) != 0:
+                return (None, "applying the merged diff failed (%s): %s" % (what, r[ix["ap", do, mo]]))
+            got, exp = r[ix["res", do, mo]], c
+            if not do:
+                got, exp = strip_default_nodes(got), strip_default_nodes(exp)
+            if got.rstrip(";") == exp.rstrip(";"):
+                continue
+            msg = "apply(merge(diff(A,B),diff(B,C)),A) differs from C (%s):\n%s" % (what, kn_delta(got, exp))
+            if not mo:
+                return (None, msg)
+            worst = worst or (self.merge_defaults_tag(got, exp, dflt), msg)
+        return worst
+
+    def merge_defaults_tag(self, got, exp, dflt):
+        """known: with LYD_DIFF_MERGE_DEFAULTS a leaf that was deleted and is created again with its schema default value
+        becomes operation none - the result keeps the deleted value. Symptom: the only differences are values (and
+        default flags) of leaves that have a default and should hold it"""
+        g, e = got.rstrip(";").split(";"), exp.rstrip(";").split(";")
+        if len(g) != len(e):
+            return None
+        n = 0
+        for x, y in zip(g, e):
+            if x == y:
+                continue
+            p, q = x.split(":"), y.split(":")
+            if p[:3] != q[:3] or p[2] not in dflt:
+                return None
+            n += 1
+        return "merge-defaults-opt-delete-create" if n else None
